@@ -336,7 +336,7 @@ pub fn run(tier: Tier) -> i32 {
     }
     rep.machinery_errors.extend(acc.machinery);
     // external-process cells (judged against the reference, hence against every other cell)
-    if std::path::Path::new(crate::checks::c15::FAKE_SAT).exists() {
+    if std::path::Path::new(crate::checks::c15::fake_sat()).exists() {
         let eg = graphs_for_external(thorough);
         let eacc = external_sweep(&eg, "c06ext");
         rep.traces += eacc.queries;
